@@ -183,7 +183,32 @@ func runFieldCase(r *Run, family string, c fieldCase, extraHooks map[string]hook
 					return &Violation{What: fmt.Sprintf("%s: output %d is %s, the reference gives %s, at %s", name, idx, got, want, short(strings.Join(pins, " "), 400)), Replay: map[string]any{"kind": "functional", "family": family, "case": name, "output": idx, "inputs": pins, "impl": got.String(), "reference": want.String()}, Outcome: "gnark test engine on the real (unhooked) code: " + short(msg, 200)}
 				}})
 		} else {
-			r.Infra("%s: output %d agrees with the reference at all sample points but no polynomial identity was found", c.name, i)
+			// neither a proof nor a differing sample: ask the solver directly on the exact encodings
+			script, seen := q.directQuery(outs[i], refs[i])
+			if len(script) > 400000 {
+				r.Infra("%s: output %d agrees with the reference at all sample points but no polynomial identity was found (too large for a direct query)", c.name, i)
+				continue
+			}
+			cc, idx := c, i
+			r.Add(&Ob{Name: fmt.Sprintf("%s/out%d-direct", c.name, i), Family: family, Script: script, Values: sym.SortedAtomNames(seen), Site: c.name, Fallback: []string{"cvc5", "z3-new"}, Bound: "all inputs (exact contract-level encoding of implementation and reference)",
+				OnFail: func(res smt.Result) *Violation {
+					vals := func(name string, hi *big.Int) *big.Int {
+						if v, ok := res.Model[name]; ok {
+							return v
+						}
+						return big.NewInt(0)
+					}
+					ok, msg := replayFieldCase(cc, extraHooks, vals)
+					if ok {
+						r.Note("%s: solver model for output %d does not reproduce on the real code (%s)", cc.name, idx, msg)
+						return nil
+					}
+					var pins []string
+					for k, v := range res.Model {
+						pins = append(pins, fmt.Sprintf("%s=%s", k, v))
+					}
+					return &Violation{What: fmt.Sprintf("%s: output %d differs from the reference at %s", cc.name, idx, short(strings.Join(pins, " "), 300)), Replay: map[string]any{"kind": "functional", "family": family, "case": cc.name, "output": idx, "inputs": pins}, Outcome: "gnark test engine on the real (unhooked) code: " + short(msg, 200)}
+				}})
 		}
 	}
 	vcObligationsFR(r, w, c.name)
@@ -523,7 +548,13 @@ func runC08(r *Run) {
 		em := sym.NewEmitter()
 		em.DefMode = true
 		em.AssertAll(e)
-		em.Assert("(and (= a_0 0) (= a_1 0))")
+		var zs []string
+		for _, at := range e.Atoms {
+			if at.Name == "a_0" || at.Name == "a_1" {
+				zs = append(zs, fmt.Sprintf("(= %s 0)", em.Ref(at)))
+			}
+		}
+		em.Assert("(and " + strings.Join(zs, " ") + ")")
 		r.Add(&Ob{Name: nm + "/zero-rejected", Family: "extension-field", Script: em.String(), Site: nm + " of zero", Bound: "a = 0, all other operands",
 			OnFail: func(res smt.Result) *Violation { return nil }})
 	}
